@@ -6,6 +6,7 @@
 From Coq Require Import ZArith List Bool Arith.
 From MomoCommon Require Import GenPrelude.
 From C20 Require Import PoolAlloc PoolAllocProofs.
+From C20 Require Gen_PoolAllocator.
 Import ListNotations.
 
 (* For EVERY history of allocator operations (construct, copy, rebind, select_on_container_copy_construction,
@@ -204,6 +205,80 @@ Print Assumptions C20_handle_ops_frame.
 Theorem C20_pool_block_single : forall cfg vt, block_count cfg = 1%Z -> (0 < vsize vt)%Z -> get_params cfg vt = (vsize vt, valign vt).
 Proof. exact pool_block_single. Qed.
 Print Assumptions C20_pool_block_single.
+
+(* The decision logic of allocate / deallocate is GENERATED: cxx2coq translates pvIsEqual, deallocate and allocate
+   of pool_allocator.h on every run (pool calls as abstract effects).  These theorems say that the generated
+   functions compute exactly the model's decision functions, for any representation of the parameter
+   objects and any effects, and that the model's step does what the decision functions say. *)
+Theorem C20_generated_deallocate_is_model_decision : forall cfg (dec : Z -> params) poolP myP mm evp evr route ptr count vt P,
+  dec myP = get_params cfg vt -> dec poolP = pparams P -> (0 <= count * vsize vt < 2 ^ 64)%Z ->
+  Gen_PoolAllocator.deallocate (fun e => fst (dec e)) (fun e => snd (dec e)) poolP myP mm evp evr (vsize vt) route ptr count =
+  match dealloc_decision cfg vt P count with
+  | DPool => evp route ptr
+  | DRaw sz => evr route mm ptr sz
+  end.
+Proof. exact gen_deallocate_refines. Qed.
+Print Assumptions C20_generated_deallocate_is_model_decision.
+
+Theorem C20_generated_allocate_is_model_decision : forall cfg (dec : Z -> params) poolP myP mm palloc ralloc evrec route count vt P,
+  dec myP = get_params cfg vt -> dec poolP = pparams P -> (0 <= count * vsize vt < 2 ^ 64)%Z ->
+  Gen_PoolAllocator.allocate (fun e => fst (dec e)) (fun e => snd (dec e)) poolP (Z.of_nat (pcount P)) myP mm palloc ralloc evrec (vsize vt) route count =
+  match alloc_decision cfg vt P count with
+  | APool true => (palloc, evrec route myP)
+  | APool false => (palloc, route)
+  | ARaw sz => (ralloc mm sz, route)
+  end.
+Proof. exact gen_allocate_refines. Qed.
+Print Assumptions C20_generated_allocate_is_model_decision.
+
+Theorem C20_step_alloc_follows_decision : forall cfg st h n grow st' ob, step cfg st (OpAlloc h n grow) = Ok (st', ob) ->
+  let H := handles st h in
+  match alloc_decision cfg (hvt H) (pools st (hpool H)) n with
+  | APool r => o_dest ob = Some (Pooled (pparams (pools st' (hpool H)))) /\ o_reparam ob = r /\
+               (r = true -> pparams (pools st' (hpool H)) = get_params cfg (hvt H)) /\
+               (r = false -> pparams (pools st' (hpool H)) = pparams (pools st (hpool H)))
+  | ARaw sz => o_dest ob = Some (RawMem sz) /\ o_reparam ob = false /\ pools st' = pools st
+  end.
+Proof. exact step_alloc_follows_decision. Qed.
+Print Assumptions C20_step_alloc_follows_decision.
+
+Theorem C20_step_dealloc_follows_decision : forall cfg st h b n shrink st' ob, step cfg st (OpDealloc h b n shrink) = Ok (st', ob) ->
+  let H := handles st h in
+  match dealloc_decision cfg (hvt H) (pools st (hpool H)) n with
+  | DPool => o_dest ob = Some (Pooled (pparams (pools st (hpool H)))) /\ pcount (pools st (hpool H)) = S (pcount (pools st' (hpool H)))
+  | DRaw sz => o_dest ob = Some (RawMem sz) /\ pools st' = pools st
+  end.
+Proof. exact step_dealloc_follows_decision. Qed.
+Print Assumptions C20_step_dealloc_follows_decision.
+
+(* operator== is pool identity: an equivalence relation; equal allocators of one value type have the same
+   deallocation rights; copies, rebinds and rvalue constructions compare equal to their source, the result of
+   select_on_container_copy_construction does not. *)
+Theorem C20_alloc_eq_equiv : forall st, (forall h, alloc_eq st h h = true) /\
+  (forall a b, alloc_eq st a b = alloc_eq st b a) /\
+  (forall a b c, alloc_eq st a b = true -> alloc_eq st b c = true -> alloc_eq st a c = true).
+Proof. exact alloc_eq_equiv. Qed.
+Print Assumptions C20_alloc_eq_equiv.
+
+Theorem C20_alloc_eq_interchangeable : forall cfg st h k b n s, alloc_eq st h k = true -> handle_ok st k = true ->
+  hvt (handles st k) = hvt (handles st h) ->
+  proto_ok cfg st (OpDealloc h b n s) = true -> proto_ok cfg st (OpDealloc k b n s) = true.
+Proof. exact alloc_eq_interchangeable. Qed.
+Print Assumptions C20_alloc_eq_interchangeable.
+
+Theorem C20_alloc_eq_after_ops : forall cfg st h,
+  (forall st1 ob, step cfg st (OpCopy h) = Ok (st1, ob) -> alloc_eq st1 (nhandles st) h = true) /\
+  (forall st1 ob, step cfg st (OpMove h) = Ok (st1, ob) -> alloc_eq st1 (nhandles st) h = true) /\
+  (forall vt st1 ob, step cfg st (OpRebind h vt) = Ok (st1, ob) -> alloc_eq st1 (nhandles st) h = true) /\
+  (forall st1 ob, inv cfg st -> handle_ok st h = true -> step cfg st (OpSocc h) = Ok (st1, ob) -> alloc_eq st1 (nhandles st) h = false).
+Proof. exact alloc_eq_after_ops. Qed.
+Print Assumptions C20_alloc_eq_after_ops.
+
+(* Frame: construct / destroy / == / != / get_base_allocator leave the whole allocator state untouched. *)
+Theorem C20_elem_query_frame : forall cfg st, (forall h, step cfg st (OpElem h) = Ok (st, mkObs None None (hpool (handles st h)) 0 0 false)) /\
+  (forall h1 h2, step cfg st (OpQuery h1 h2) = Ok (st, mkObs None None (hpool (handles st h1)) 0 0 false)).
+Proof. exact elem_query_frame. Qed.
+Print Assumptions C20_elem_query_frame.
 
 (* The invariant used above is not vacuous: it holds initially and is preserved by every protocol- and
    H-respecting operation (which never gets stuck, routes correctly and balances the base allocator). *)
